@@ -313,6 +313,7 @@ func init() {
 				cases = append(cases, gen.ModScopeCase(c.R.Fork()), gen.ModScopeCase(c.R.Fork()))
 				cases = append(cases, gen.ModThrowCase(c.R.Fork()), gen.ModReenterCase(c.R.Fork()), gen.ModReenterCase(c.R.Fork()))
 			}
+			modInvokerScenarios(c)
 			for i := range cases {
 				mc := &cases[i]
 				if mc.Kind != "scope" {
@@ -360,4 +361,62 @@ func init() {
 			return impl, nil
 		},
 	})
+}
+
+
+// modInvokerScenarios: the FIRST import of a module happens inside a function that Go calls back
+// through an Invoker (pooled / unpooled / strings.Map-style); later imports in the main script and
+// in later callbacks must see the same object and the body must have run once (oracle only).
+func modInvokerScenarios(c *Ctx) {
+	mods := map[string]string{
+		"cnt": "global log\nlog = append(log, \"cnt\")\nn := 0\nreturn {inc: func() { n++; return n }, get: func() { return n }}",
+	}
+	scripts := []string{
+		"global (log, call)\nf := func() { return import(\"cnt\").inc() }\na := call(f)\nb := call(f)\nm := import(\"cnt\")\nreturn [a, b, m.inc(), m.get(), log]",
+		"global (log, call)\nf := func(x) { m := import(\"cnt\"); m.inc(); return m }\na := call(f, 1)\nb := import(\"cnt\")\nreturn [a == b, b.get(), call(f, 2) == b, b.get(), log]",
+		"global (log, call)\ng := func() { return call(func() { return import(\"cnt\").inc() }) }\nreturn [g(), g(), import(\"cnt\").get(), log]",
+		"global (log, call)\nfor i := 0; i < 3; i++ { call(func() { import(\"cnt\").inc() }) }\nreturn [import(\"cnt\").get(), log]",
+	}
+	expect := []string{
+		`[1, 2, 3, 3, ["cnt"]]`, `[true, 1, true, 2, ["cnt"]]`, `[1, 2, 2, ["cnt"]]`, `[3, ["cnt"]]`,
+	}
+	for _, pooled := range []bool{false, true} {
+		for _, noopt := range []bool{false, true} {
+			for i, src := range scripts {
+				mm := ugo.NewModuleMap()
+				for n, m := range mods {
+					mm.AddSourceModule(n, []byte(m))
+				}
+				bc, err := ugo.Compile([]byte(src), ugo.CompilerOptions{ModuleMap: mm, NoOptimize: noopt})
+				if err != nil {
+					c.Violation(PropViolation{"C12", "invoker scenario does not compile: " + err.Error(), src, "C12:invoker-scenario-compile"})
+					continue
+				}
+				call := &ugo.Function{Name: "call", ValueEx: func(cl ugo.Call) (ugo.Object, error) {
+					inv := ugo.NewInvoker(cl.VM(), cl.Get(0))
+					if pooled {
+						inv.Acquire()
+						defer inv.Release()
+					}
+					var as []ugo.Object
+					for k := 1; k < cl.Len(); k++ {
+						as = append(as, cl.Get(k))
+					}
+					return inv.Invoke(as...)
+				}}
+				ret, err := ugo.NewVM(bc).Run(ugo.Map{"log": ugo.Array{}, "call": call})
+				got := ""
+				if err != nil {
+					got = "error: " + err.Error()
+				} else {
+					got = ret.String()
+				}
+				c.Count("invoker-scenario")
+				if got != expect[i] {
+					c.Violation(PropViolation{"C12", fmt.Sprintf("first import inside a Go-invoked function (pooled=%v, noopt=%v): got %s, want %s", pooled, noopt, got, expect[i]), src,
+						fmt.Sprintf("C12:invoked-import:scenario%d", i)})
+				}
+			}
+		}
+	}
 }
